@@ -41,7 +41,8 @@ THEOREMS = [
     'Emg.allInj_phys', 'Emg.Phys.reach',
     # Laplace domain: smoothers are energy-norm non-expansive
     'Emg.energy_nonneg', 'Emg.relaxBlock_energy', 'Emg.smoothingC_energy_le',
-    'Emg.smoothing_energy_le', 'Emg.kernel_energy_le',
+    'Emg.smoothing_energy_le', 'Emg.kernel_energy_le', 'Emg.PhysR.reach',
+    'Emg.smoothingC_energy_le_reach',
 ]
 
 BASELINE = os.path.join(os.path.dirname(__file__), 'c06_baseline.json')
